@@ -435,6 +435,68 @@ theorem members_accept_sound {isUnion pack : Bool} {ds : List Decl} {L : Layout.
   obtain ⟨hw, hm, _⟩ := layout_ok_wf ht h
   exact ⟨wfDecls_each hw, fun hu => wfDecls_flexible_last hu hw, hm⟩
 
+private theorem run_flexible {isUnion pack : Bool} : ∀ {ds : List Decl} {st st' : St} {ms : List Member},
+    (∀ d ∈ ds, TypeWf d) → Layout.run isUnion pack st ds = .ok (st', ms) →
+    st'.flexible = (st.flexible || ds.any (fun d => d.ty.incomplete || d.ty.flexible))
+  | [], st, st', ms, _, h => by
+    simp only [Layout.run, Except.ok.injEq, Prod.mk.injEq] at h
+    simp [← h.1]
+  | d :: ds, st, st', ms, ht, h => by
+    simp only [Layout.run] at h
+    cases h1 : addmember isUnion pack st d with
+    | error e => simp [h1] at h
+    | ok r =>
+      obtain ⟨st1, m⟩ := r
+      simp only [h1] at h
+      cases h2 : Layout.run isUnion pack st1 ds with
+      | error e => simp [h2] at h
+      | ok r2 =>
+        obtain ⟨st2, ms2⟩ := r2
+        simp only [h2, Except.ok.injEq, Prod.mk.injEq] at h
+        have a := (addmember_ok_wf (ht d List.mem_cons_self) h1).2.2.1
+        have b := run_flexible (fun x hx => ht x (List.mem_cons_of_mem _ hx)) h2
+        simp only at a
+        rw [← h.1, b, a]
+        simp [Bool.or_assoc]
+
+/-- **Flexible array members propagate** (6.7.2.1p3: "such a structure (and any union containing, possibly
+recursively, a member that is such a structure) shall not be a member of a structure"): the type
+`tagspec` builds is marked flexible exactly when one of its members is an incomplete array or has a
+flexible type — for a union that is how the mark travels upwards through any number of nested
+unions — and by `members_accept_sound` a structure never has a member whose type carries the mark.
+(Seeded change C10b dropped the propagation through unions.) -/
+theorem flexible_propagates {isUnion pack : Bool} {ds : List Decl} {L : Layout.Layout} (ht : TypesWf ds)
+    (h : Layout.layout isUnion pack ds = .ok L) :
+    L.flexible = ds.any (fun d => d.ty.incomplete || d.ty.flexible) := by
+  unfold Layout.layout at h
+  cases h1 : Layout.run isUnion pack {} ds with
+  | error e => simp [h1] at h
+  | ok r =>
+    obtain ⟨st, ms⟩ := r
+    simp only [h1] at h
+    split at h
+    · cases h
+    · cases h
+      simpa using run_flexible ht.1 h1
+
+/-- `struct F { int n; int a[]; }` inside `union U`, `union U` inside `union V`: the demos of seed C10b -/
+def flexStruct : CType := .su false false (.cons (some "n") (.scalar 4 4 true) 0 none (.cons (some "a") (.array (.scalar 4 4 true) none) 0 none .nil))
+def flexUnion : CType := .su true false (.cons (some "f") flexStruct 0 none (.cons (some "r") (.scalar 4 4 true) 0 none .nil))
+def flexUnion2 : CType := .su true false (.cons (some "u") flexUnion 0 none (.cons (some "b") (.array (.scalar 1 1 true) (some 8)) 0 none .nil))
+
+-- the union alone is fine and carries the mark; a structure containing it, at any depth, is rejected
+example : (tinfo flexUnion).toOption.map (·.flexible) = some true ∧
+    (tinfo flexUnion2).toOption.map (·.flexible) = some true := by decide
+example : tinfo (.su false false (.cons (some "u") flexUnion 0 none (.cons (some "c") (.scalar 4 4 true) 0 none .nil)))
+    = .error .containsFlexible := by decide
+example : tinfo (.su false false (.cons (some "i") (.scalar 4 4 true) 0 none
+    (.cons (some "v") flexUnion2 0 none (.cons (some "t") (.scalar 4 4 true) 0 none .nil)))) = .error .containsFlexible := by
+  decide
+/-- NOT diagnosed (by the model as by `decl.c`): the array-element clause of 6.7.2.1p3 — `struct F fa[2];`,
+and through it `struct S { struct F fa[2]; };` (an array type never carries the mark) -/
+example : (tinfo (.su false false (.cons (some "fa") (.array flexStruct (some 2)) 0 none .nil))).toOption.isSome = true := by
+  decide
+
 end Members
 
 section Literals
